@@ -7,6 +7,10 @@ pub(crate) struct ElemType {
 }
 
 impl ElemType {
+    /// The universal selector, `*`.
+    pub(super) fn any() -> Self {
+        Self { s: "*".into() }
+    }
     pub fn is_any(&self) -> bool {
         self.s == "*" || self.s == "*|*"
     }
